@@ -324,6 +324,19 @@ CHECKS.update({
     ),
 })
 
+CHECKS.update({
+    "C15": (
+        "generated forms with mixed subdomain ids and distinct-but-similar metadata; oracle = dict model (mesh, type, subdomain, metadata class) -> sum of integrands, evaluated by the interpreter, vs the grouped form",
+        "Hypothesis-generated forms of 1-8 integrals (everywhere / int / tuple ids, dx and ds, one or two meshes, metadata "
+        "pools with equal, different and nearly equal values incl. long numpy arrays, repeated integrands) through "
+        "group_form_integrals (both append options) and build_integral_data: per (mesh, type, subdomain, metadata class) the "
+        "grouped integrands must sum to the applicable original integrands; output metadata must equal a source's metadata; "
+        "ids in output tuples must be unique; integral data must list each grouped integral exactly once under its key.",
+        "Metadata classes by exact comparison; coordinate derivatives not generated.",
+        "4/C15",
+    ),
+})
+
 NOT_YET = {}
 
 
